@@ -260,10 +260,15 @@ outer:
 			break
 		}
 
+		// The TTL may be changed by SetOption at any time.
+		s.Lock()
+		ttl := s.ttl
+		s.Unlock()
+
 		// Move backtrace from body to header.
 		hops := 0
 		for {
-			if hops >= s.ttl {
+			if hops >= ttl {
 				m.Free() // ErrTooManyHops
 				continue outer
 			}
